@@ -746,3 +746,29 @@ Proof.
   - apply sumQ_le. intros i Hi. destruct (Nat.eqb _ _); [auto|lra].
   - rewrite sumQ_zero; [lra|reflexivity].
 Qed.
+(* variant: the rows left by an unsuccessful test also tie on the right-hand-side column of the first round *)
+Lemma lex_min_ratio_test_n_complete_rhs nr (M : matQ) pv ss :
+  (forall r r', (r < nr)%nat -> (r' < nr)%nat -> r <> r' -> 0 < get M r pv -> 0 < get M r' pv ->
+     ~ (forall j, ((ss <= j < ss + nr)%nat \/ j = (ncols M - 1)%nat) -> j <> pv -> ratio M pv j r == ratio M pv j r')) ->
+  fst (lex_min_ratio_test_n nr M pv ss 0 0) = false -> forall k, (k < nr)%nat -> get M k pv <= 0.
+Proof.
+  intros Hns Hf k Hk. apply Qnot_lt_le. intro Hpos.
+  unfold lex_min_ratio_test_n in Hf.
+  pose proof (min_ratio_test_eq_ratio M pv (ncols M - 1) (seq 0 nr)) as Heq0.
+  set (am := min_ratio_test M pv (ncols M - 1) 0 0 (seq 0 nr)) in *.
+  assert (Hne : am <> []) by (apply min_ratio_test_nonempty; exists k; split; [apply in_seq; lia|auto]).
+  assert (Hnd : NoDup am) by (apply min_ratio_test_nodup, seq_NoDup).
+  assert (Hin : forall r, In r am -> (r < nr)%nat /\ 0 < get M r pv).
+  { intros r Hr. apply min_ratio_test_in in Hr. destruct Hr as [H1 H2]. apply in_seq in H1. split; [lia|auto]. }
+  destruct am as [|a0 [|b0 l0]] eqn:E; [congruence|discriminate|].
+  destruct (lex_loop M pv 0 0 (seq ss nr) (a0 :: b0 :: l0)) as [found am'] eqn:El. cbn [fst] in Hf. subst found.
+  destruct (lex_loop_false _ _ _ _ _ El Hnd ltac:(cbn; lia) ltac:(intros r Hr; apply Hin; auto)) as (H1 & H2 & H3 & H4).
+  destruct am' as [|r [|r' l']]; [cbn in H2; lia|cbn in H2; lia|].
+  assert (Hrr : r <> r') by (inversion H1; subst; intro; subst; apply H5; now left).
+  assert (Ir : In r (a0 :: b0 :: l0)) by (apply H3; now left).
+  assert (Ir' : In r' (a0 :: b0 :: l0)) by (apply H3; right; now left).
+  destruct (Hin r Ir) as [Hr1 Hr2]. destruct (Hin r' Ir') as [Hr1' Hr2'].
+  apply (Hns r r' Hr1 Hr1' Hrr Hr2 Hr2'). intros j [Hj|Hj] Hne'.
+  - apply H4; auto; [apply in_seq; lia|now left|right; now left].
+  - subst j. apply Heq0; auto.
+Qed.
